@@ -15,6 +15,7 @@ from ropt.results import FunctionResults, GradientResults
 
 from ..core import PropertyCheck
 from ..ropt_util import outcome_of
+from ..transforms_util import make_transforms
 
 INF = float("inf")
 
@@ -42,6 +43,11 @@ def catalogue():
     out.append(c)
     c = _copy(base); c["variables"]["mask"] = [True, False, True]; c["samplers"] = [{"method": "sobol"}]
     out.append(c)
+    for method in ("norm", "sobol"):       # configurations validated and run with transforms
+        c = _copy(base); c["samplers"] = [{"method": method}]; c["_transforms"] = {"var_scales": [2.0, 0.5, 1.0], "var_offsets": [0.1, 0.0, -0.2]}
+        out.append(c)
+        c = _copy(base); c["samplers"] = [{"method": method}]; c["_transforms"] = {"obj_scales": [4.0]}
+        out.append(c)
     c = _copy(base); c["realization_filters"] = [{"method": "cvar-objective", "options": {"sort": [0], "percentile": 0.5}}]
     c["objectives"] = {"weights": [1.0], "realization_filters": [0]}
     out.append(c)
@@ -67,14 +73,47 @@ def _copy(d):
     return copy.deepcopy(d)
 
 
+from ropt.plugins.sampler.base import Sampler, SamplerPlugin  # noqa: E402
+from ropt.plugins.sampler.scipy import SciPySamplerPlugin  # noqa: E402
+
+
+class _NegatedSampler(Sampler):
+    def __init__(self, inner):
+        self._inner = inner
+
+    def generate_samples(self):
+        return -self._inner.generate_samples()
+
+
+class NegatingSamplerPlugin(SamplerPlugin):
+    """Supports every bundled sampler method and hands out its samples negated: registered with prioritize=True it
+    takes over the bare method names, and every run made afterwards must show it."""
+
+    def create(self, enopt_config, sampler_index, mask, rng):
+        return _NegatedSampler(SciPySamplerPlugin().create(enopt_config, sampler_index, mask, rng))
+
+    def is_supported(self, method):
+        return SciPySamplerPlugin().is_supported(method)
+
+
+def _new_manager():
+    pm = PluginManager()
+    if STATE["plugged"]:
+        pm.add_plugin("sampler", "rvneg", NegatingSamplerPlugin(), prioritize=True)
+    return pm
+
+
 CATALOGUE = None
-SHARED = {"pm": None, "plan": None, "step": None, "ctx": None, "sink": None, "configs": {}}
+STATE = {"plugged": False}
+SHARED = {"pm": None, "plan": None, "step": None, "ctx": None, "sink": None, "configs": {}, "plugged": False}
 SEEDS = {1: 5, 2: 5 + 2 ** 32}          # gradient seeds used for the model's seeds 1 and 2 (differ only above bit 32)
 
 
 def run_once(cfg, seed, reuse, label):
     cfg = _copy(cfg)
     seedfree = cfg.pop("_seedfree", False)
+    tf = cfg.pop("_transforms", None)
+    transforms = None if tf is None else make_transforms(**tf)
     cfg["gradient"]["seed"] = SEEDS.get(seed, seed)
     h, hp = hashlib.sha256(), hashlib.sha256()
     state = {"n": 0, "pert": False}
@@ -106,7 +145,8 @@ def run_once(cfg, seed, reuse, label):
         # everything that can be re-used is re-used: plug-in manager, context, plan, step object and the validated
         # configuration object of an earlier identical run
         if SHARED["pm"] is None:
-            SHARED["pm"] = PluginManager()
+            SHARED["pm"] = _new_manager()
+            SHARED["plugged"] = STATE["plugged"]
             SHARED["sink"] = {"evaluator": None, "finished": None}
             sink = SHARED["sink"]
             SHARED["ctx"] = OptimizerContext(evaluator=lambda v, c: sink["evaluator"](v, c), plugin_manager=SHARED["pm"])
@@ -114,16 +154,16 @@ def run_once(cfg, seed, reuse, label):
             SHARED["plan"] = Plan(SHARED["ctx"])
             SHARED["step"] = SHARED["plan"].add_step("optimizer")
         SHARED["sink"]["evaluator"], SHARED["sink"]["finished"] = evaluator, finished
-        key = repr(cfg)
+        key = repr(cfg) + repr(tf)
         if key not in SHARED["configs"]:
-            SHARED["configs"][key] = EnOptConfig.model_validate(cfg)
+            SHARED["configs"][key] = EnOptConfig.model_validate(cfg, context=transforms)
         plan, step, cfg = SHARED["plan"], SHARED["step"], SHARED["configs"][key]
     else:
-        ctx = OptimizerContext(evaluator=evaluator, plugin_manager=PluginManager())
+        ctx = OptimizerContext(evaluator=evaluator, plugin_manager=_new_manager())
         ctx.add_observer(EventType.FINISHED_EVALUATION, finished)
         plan = Plan(ctx)
         step = plan.add_step("optimizer")
-    code, outcome = outcome_of(lambda: plan.run_step(step, config=cfg))
+    code, outcome = outcome_of(lambda: plan.run_step(step, config=cfg, transforms=transforms))
     h.update(str(code).encode())
     return h.hexdigest(), hp.hexdigest(), state["pert"] and not seedfree, outcome
 
@@ -137,6 +177,9 @@ def drive(sc):
     cfgs = {1: CATALOGUE[base], 2: CATALOGUE[(base + 1) % len(CATALOGUE)]}
     reuse = False
     raw = []
+    STATE["plugged"] = False
+    if SHARED["plugged"]:              # a manager plugged by an earlier scenario of this process is not re-used
+        SHARED.update({"pm": None, "plan": None, "step": None, "ctx": None, "sink": None, "configs": {}, "plugged": False})
     for op in ops:
         if op["op"] == "reseed":
             np.random.seed(op["a"])
@@ -144,15 +187,20 @@ def drive(sc):
             np.random.random()
         elif op["op"] == "reuse":
             reuse = not reuse
+        elif op["op"] == "plug":
+            STATE["plugged"] = True
+            if SHARED["pm"] is not None and not SHARED["plugged"]:
+                SHARED["pm"].add_plugin("sampler", "rvneg", NegatingSamplerPlugin(), prioritize=True)
+                SHARED["plugged"] = True
         elif op["op"] == "other":
             run_once(cfgs[op["a"]], 99, reuse, "other")
         else:
             t, p, hasp, outcome = run_once(cfgs[op["a"]], op["b"], reuse, "target")
-            raw.append((op["a"], op["b"], t, p, hasp, outcome))
+            raw.append((op["a"], op["b"], t, p, hasp, outcome, STATE["plugged"]))
     ids = {}
     trace = []
-    for c, s, t, p, hasp, outcome in raw:
-        trace.append({"ev": "Run", "cfg": c, "seed": s, "trace": ids.setdefault(t, len(ids) + 1), "pert": ids.setdefault("p" + p, len(ids) + 1),
+    for c, s, t, p, hasp, outcome, plug in raw:
+        trace.append({"ev": "Run", "cfg": c, "seed": s, "plug": bool(plug), "trace": ids.setdefault(t, len(ids) + 1), "pert": ids.setdefault("p" + p, len(ids) + 1),
                       "haspert": bool(hasp), "outcome": outcome})
     targets = [i for i, o in enumerate(ops) if o["op"] == "target"]
     interference = any(ops[i]["op"] != "target" for i in range(targets[0] + 1, targets[-1])) if len(targets) >= 2 else False
@@ -174,6 +222,10 @@ def extra_scenarios(tier, seed):
         out.append({"ops": [{"op": "target", "a": 1, "b": 1}, {"op": "reseed", "a": 7 + k, "b": 0}, {"op": "other", "a": 2, "b": 0},
                             {"op": "reuse", "a": 0, "b": 0}, {"op": "draw", "a": 0, "b": 0}, {"op": "target", "a": 1, "b": 1},
                             {"op": "target", "a": 1, "b": 2}, {"op": "target", "a": 1, "b": 1}], "force_base": k})
+        # a re-used manager that has already resolved the method names, then a prioritised plug-in, then fresh managers
+        out.append({"ops": [{"op": "reuse", "a": 0, "b": 0}, {"op": "target", "a": 1, "b": 1}, {"op": "plug", "a": 0, "b": 0},
+                            {"op": "target", "a": 1, "b": 1}, {"op": "reuse", "a": 0, "b": 0}, {"op": "target", "a": 1, "b": 1},
+                            {"op": "target", "a": 1, "b": 2}], "force_base": k})
     return out
 
 
